@@ -5,6 +5,7 @@
     current source, re-checked on every run). *)
 From Coq Require Import List String Bool Arith.
 From AGH Require Import Base.Conc Model.Guards Proofs.Conc Proofs.LockTable Proofs.LockTablePairs Proofs.LockTableWhole Gen.LockTable Proofs.LockTableInst.
+From AGH Require Import Proofs.ConcGate Proofs.LockTableGate Gen.LockTableAcq Proofs.LockTableGateInst.
 Import ListNotations.
 Local Open Scope string_scope.
 Local Open Scope list_scope.
@@ -291,3 +292,143 @@ Example C05_conforming_order_thread :
      Rel "client.Storage.mu" W; Rel "home.homeContext.controlLock" W] = true.
 Proof. exact conforming_order_thread. Qed.
 Print Assumptions C05_conforming_order_thread.
+
+(** * Round 4: external blocking resources as locks, and the gate-lock criterion
+
+    A bbolt write transaction holds the database's writer lock from
+    db.Begin(true) to tx.Commit() / tx.Rollback(); the translator makes it an
+    abstract lock of the table ("stats.StatsCtx.db.writer", "home.Auth.db.writer",
+    ...) and emits every acquisition site with ALL locks held there
+    (Gen/LockTableAcq.v).  With it the statistics module has a lock-order cycle
+    on the correct source (flush: currMu, then the writer; readers: the writer,
+    then currMu), harmless only because both orders happen under confMu, which
+    the flush holds exclusively.  [conflicts]: two lock sets share a lock that
+    one of them holds in write mode; only sites whose lock sets do not conflict
+    can be occupied by two threads at once. *)
+
+(** Generic, about one state of the machine: in a deadlocked state, whatever
+    ranking is proposed, some blocked thread is in an acquisition that does not
+    ascend from everything it holds (ghost lock sets of the invariant). *)
+Theorem C05_deadlock_needs_descent :
+  forall (P : held -> list event -> Prop), (forall h, P h [] -> h = []) ->
+  forall (s : state) (its : list ithread),
+    map snd its = threads s ->
+    Forall (fun it => P (fst it) (rest (snd it)) /\ ann_ok (snd it)) its ->
+    (forall l, lockok (locks s l) (total (l, W) its) (total (l, R) its) (ptotal l its)) ->
+    deadlocked s ->
+    forall rank : lock -> nat,
+    exists it l m r,
+      In it its /\ rest (snd it) = Acq l m :: r /\ ascending rank (fst it) l = false.
+Proof. exact deadlock_needs_descent. Qed.
+Print Assumptions C05_deadlock_needs_descent.
+
+(** ... and two distinct threads of one reachable state never hold conflicting
+    lock sets. *)
+Theorem C05_threads_never_conflict : forall (s : state) (its : list ithread),
+  (forall l, lockok (locks s l) (total (l, W) its) (total (l, R) its) (ptotal l its)) ->
+  forall a b, In a its -> In b its -> a = b \/ conflicts (fst a) (fst b) = false.
+Proof. exact its_pair. Qed.
+Print Assumptions C05_threads_never_conflict.
+
+(** The gate-lock theorem, generic in the table of acquisition sites: if every
+    site either ascends in one global ranking or has a ranking for the
+    sub-table of the sites compatible with it, then for any number of threads
+    whose acquisitions are sites of the table (with exactly the listed lock
+    set) and any schedule no reachable state is deadlocked ... *)
+Theorem C05_gated_no_deadlock : forall rank0 rkd sites,
+  gated_with rank0 rkd sites = true ->
+  forall progs, Forall (fun p => conforms_sites sites [] p = true) progs ->
+  forall s, reachable (init progs) s -> ~ deadlocked s.
+Proof. exact gated_no_deadlock. Qed.
+Print Assumptions C05_gated_no_deadlock.
+
+(** ... and every cycle of sites (each acquires a lock the next one holds; a
+    re-entrant acquisition is a cycle of one site) contains two sites with
+    conflicting lock sets: a common gate, held exclusively by one of them. *)
+Theorem C05_gated_cycles_conflict : forall rank0 rkd sites,
+  gated_with rank0 rkd sites = true ->
+  forall c, incl c sites -> site_cycle c -> has_conflict c = true.
+Proof. exact gated_cycles_conflict. Qed.
+Print Assumptions C05_gated_cycles_conflict.
+
+(** The declarative form for an arbitrary table (no cycle of pairwise
+    compatible sites => no deadlock): see Proofs/LockTableGateGen.v for its
+    status; the two theorems above give the same conclusion from the
+    computable check, which implies this premise. *)
+Definition C05_gate_lock_general_statement : Prop := gate_lock_general_statement.
+
+(** Non-vacuity.  The shape of the statistics module (gate g; a = unit, b =
+    writer): with the flush holding g exclusively the table passes, both
+    threads conform, the cycle a . b . a is there and no single ranking orders
+    it; with the flush holding g shared (seeded change C05-G) the check fails,
+    and the machine does reach a deadlocked state. *)
+Example C05_gated_example :
+  let sites := ex_sites W in
+  gated_with (ex_rank0 sites) (ex_rkd sites) sites = true /\
+  conforms_sites sites [] (ex_flush W) = true /\ conforms_sites sites [] ex_read = true /\
+  site_cycle [nth 2 sites (AcqSite "" "" [] ("", W) ""); nth 5 sites (AcqSite "" "" [] ("", W) "")] /\
+  forallb (site_ascending (ex_rank0 sites)) sites = false.
+Proof. exact gated_example. Qed.
+Print Assumptions C05_gated_example.
+
+Example C05_ungated_example :
+  let sites := ex_sites R in
+  gated_with (ex_rank0 sites) (ex_rkd sites) sites = false /\
+  conforms_sites sites [] (ex_flush R) = true /\ conforms_sites sites [] ex_read = true.
+Proof. exact ungated_example. Qed.
+Print Assumptions C05_ungated_example.
+
+Theorem C05_shared_gate_deadlock_possible :
+  exists s, reachable (init [ex_flush R; ex_read]) s /\ deadlocked s.
+Proof. exact shared_gate_deadlock_possible. Qed.
+Print Assumptions C05_shared_gate_deadlock_possible.
+
+(** Instance, re-checked on every run on the sites extracted from the current
+    source: the check passes (the ranking hints of the translator are only
+    checked) ... *)
+Theorem C05_acquisitions_gated :
+  gated_with gate_rank0 gate_rkd checked_acquisitions = true.
+Proof. exact acquisitions_gated. Qed.
+Print Assumptions C05_acquisitions_gated.
+
+(** ... hence no deadlock for threads whose acquisitions are checked sites,
+    bbolt write transactions included, and every cycle of checked sites
+    contains a conflicting pair. *)
+Theorem C05_no_deadlock_gated : forall progs,
+  Forall (fun p => conforms_sites checked_acquisitions [] p = true) progs ->
+  forall s, reachable (init progs) s -> ~ deadlocked s.
+Proof. exact no_deadlock_gated. Qed.
+Print Assumptions C05_no_deadlock_gated.
+
+Theorem C05_checked_site_cycles_conflict :
+  forall c, incl c checked_acquisitions -> site_cycle c -> has_conflict c = true.
+Proof. exact checked_site_cycles_conflict. Qed.
+Print Assumptions C05_checked_site_cycles_conflict.
+
+(** Whole table, in force when nothing is listed (today). *)
+Theorem C05_current_source_gated_now :
+  if nothing_listed known_keys then
+    (forall progs, Forall (fun p => conforms_sites acquisitions [] p = true) progs ->
+     forall s, reachable (init progs) s -> ~ deadlocked s) /\
+    (forall c, incl c acquisitions -> site_cycle c -> has_conflict c = true)
+  else True.
+Proof. exact current_source_gated_now. Qed.
+Print Assumptions C05_current_source_gated_now.
+
+(** Non-vacuity on the real table: the statistics flush and the reader of
+    GET /control/stats, with the write transaction as a lock, conform to the
+    extracted sites; the table contains the two-site cycle currMu . db.writer .
+    currMu, its two sites conflict (confMu, exclusive in the flush), and the
+    global ranking does not order both. *)
+Example C05_stats_threads_conform :
+  conforms_sites acquisitions [] p_stats_flush = true /\
+  conforms_sites acquisitions [] p_stats_read = true.
+Proof. exact stats_threads_conform. Qed.
+Print Assumptions C05_stats_threads_conform.
+
+Example C05_stats_gated_cycle_present :
+  exists d1 d2, In d1 acquisitions /\ In d2 acquisitions /\ site_cycle [d1; d2] /\
+    conflicts (s_held d1) (s_held d2) = true /\
+    forallb (site_ascending gate_rank0) [d1; d2] = false.
+Proof. exact stats_gated_cycle_present. Qed.
+Print Assumptions C05_stats_gated_cycle_present.
